@@ -3,6 +3,7 @@ error."""
 from __future__ import annotations
 
 import logging
+import time
 
 from hypothesis import strategies as st
 
@@ -160,6 +161,10 @@ def check(case) -> Outcome:
     basekey = core.case_hash(case)
     for node in nodes:
         for t in points:
+            if DEADLINE[0] is not None and time.monotonic() > DEADLINE[0]:
+                # time budget: inconclusive for the remaining crash points
+                out.label('inconclusive:crash-points-truncated-by-budget')
+                return out
             crash2 = None
             if case.get('second'):
                 others = [n for n in nodes if n != node]
@@ -224,8 +229,12 @@ def cases(draw, quick=True):
     }
 
 
+DEADLINE = [None]     # monotonic; set per shard, None in replays
+
+
 def run_shard(ctx: core.Ctx) -> core.ShardResult:
     res = core.ShardResult()
+    DEADLINE[0] = ctx.deadline + 60
     # no Hypothesis shrinking: one case is already ~100 faulted executions
     # and the violation detail names the node and crash point
     core.run_hypothesis(ctx, res, cases(ctx.tier == 'quick'), check,
